@@ -753,3 +753,62 @@ Proof.
     + rewrite Qi, Pi, app_length. cbn. f_equal. lia.
     + unfold q_parent. rewrite Ec at 1. reflexivity.
 Qed.
+
+(* ------------------------------------------------------------------ *)
+(* index = THE position of the node in its sibling list                 *)
+(* ------------------------------------------------------------------ *)
+Theorem index_is_position f n c : NoDup (ids f) -> locate_f n f = Some c ->
+  exists k, q_index c = Some k /\ nth_error (q_siblings c true) k = Some (c_self c) /\
+    forall j x, nth_error (q_siblings c true) j = Some x -> rid x = rid (c_self c) -> j = k.
+Proof.
+  intros H Hc. destruct (locate_f_ok f n c Hc) as [Hok _].
+  destruct (ctx_ok_split f c H Hok) as (l1 & l2 & E & H1 & H2).
+  exists (length l1). unfold q_index, q_siblings. rewrite E. refine (conj _ (conj _ _)).
+  - now apply index_of_split.
+  - apply nth_error_app_len.
+  - intros j x Hj Hx. destruct (Nat.lt_trichotomy j (length l1)) as [Hlt|[->|Hgt]]; [exfalso| reflexivity |exfalso].
+    + rewrite nth_error_app1 in Hj by assumption. apply nth_error_In in Hj. now apply (H1 x).
+    + rewrite nth_error_app2 in Hj by lia. destruct (j - length l1) as [|d] eqn:Ed; [lia|].
+      cbn [nth_error] in Hj. apply nth_error_In in Hj. now apply (H2 x).
+Qed.
+
+(* ------------------------------------------------------------------ *)
+(* C15 in positional form: the kind-aware sibling queries are positions *)
+(* in the sibling list FILTERED by the node's kind                      *)
+(* ------------------------------------------------------------------ *)
+Theorem typed_positions f n c k : NoDup (ids f) -> locate_f n f = Some c -> rkind (c_self c) = Some k ->
+  exists l1 l2,
+    filter (fun t => same_kind t (c_self c)) (c_sibs c) = l1 ++ c_self c :: l2 /\
+    (forall x, In x (l1 ++ l2) -> rkind x = Some k /\ In x (c_sibs c) /\ rid x <> rid (c_self c)) /\
+    t_index c false = Some (length l1) /\
+    t_prev c false = last_error l1 /\
+    t_next c false = hd_error l2 /\
+    t_first_sibling c false = hd_error (l1 ++ [c_self c]) /\
+    t_last_sibling c false = last_error (c_self c :: l2) /\
+    (t_is_first c false = true <-> l1 = []) /\
+    (t_is_last c false = true <-> l2 = []) /\
+    t_siblings c false false = l1 ++ l2 /\
+    t_siblings c false true = l1 ++ c_self c :: l2.
+Proof.
+  intros H Hc Hk. destruct (locate_f_ok f n c Hc) as [Hok _].
+  pose proof (ctx_ok_split f c H Hok) as Hs.
+  destruct (fctx_split c Hs) as (l1 & l2 & E & H1 & H2).
+  destruct (typed_sibling_queries f n c k H Hc Hk) as (Qs & Qf & Ql & Qp & Qn & Qi & Qif & Qil).
+  pose proof (sibling_positions (fctx c) l1 l2 E H1 H2) as (Pi & Pp & Pn & Pf & Pl & Pif & Pil & Ps).
+  change (c_self (fctx c)) with (c_self c) in *. change (c_sibs (fctx c)) with (filter (sk (c_self c)) (c_sibs c)) in E.
+  exists l1, l2. refine (conj E (conj _ (conj _ (conj _ (conj _ (conj _ (conj _ (conj _ (conj _ (conj _ _)))))))))).
+  - intros x Hx.
+    assert (Hin : In x (filter (sk (c_self c)) (c_sibs c))).
+    { rewrite E. apply in_app_or in Hx as [Hx|Hx]; apply in_or_app; [now left|right; now right]. }
+    apply filter_In in Hin as [Hin Hsk]. unfold sk, same_kind in Hsk. apply kind_eqb_eq in Hsk.
+    split; [congruence|]. split; [assumption|]. apply in_app_or in Hx as [Hx|Hx]; [now apply H1|now apply H2].
+  - now rewrite Qi.
+  - now rewrite Qp.
+  - now rewrite Qn.
+  - now rewrite Qf.
+  - now rewrite Ql.
+  - now rewrite Qif.
+  - now rewrite Qil.
+  - now rewrite Qs.
+  - rewrite Qs. unfold q_siblings. exact E.
+Qed.
